@@ -1,5 +1,6 @@
 import GqlProofs.Parser.FwdSchema
 import GqlProofs.Parser.SoundSchemaTop
+import GqlProofs.Parser.FuelSchema
 /-
   Schema definitions / extensions, directive definitions, the extension dispatcher, the document
   loop on printed items, and the entry points `parseSchemaSrc` / `parseSchema`.
@@ -479,5 +480,187 @@ theorem fwd_schemaDocLoop {dk : Kind} (hdk : DescKind dk) (m : Nat) : ∀ (items
           (by simpa [printItemK, printExtensionK] using hst) hfolm) ?_
         rintro doc' a7 ⟨hdoc', hσ7⟩
         exact hcont doc' a7 hdoc' hσ7
+
+/-! ### the entry point -/
+
+def SItem.setBI (b : Bool) : SItem → SItem
+  | .definition d => .definition { d with builtIn := b }
+  | .extension d => .extension { d with builtIn := b }
+  | x => x
+
+theorem setBuiltIn_add (b : Bool) (doc : SchemaDoc) (it : SItem) :
+    setBuiltIn b (doc.add it) = (setBuiltIn b doc).add (it.setBI b) := by
+  cases it <;> simp [SchemaDoc.add, setBuiltIn, SItem.setBI]
+
+theorem setBuiltIn_foldl (b : Bool) (items : List SItem) (doc : SchemaDoc) :
+    setBuiltIn b (items.foldl SchemaDoc.add doc) = (items.map (SItem.setBI b)).foldl SchemaDoc.add (setBuiltIn b doc) := by
+  induction items generalizing doc with
+  | nil => rfl
+  | cons it items ih => simp [List.foldl_cons, ih, setBuiltIn_add]
+
+theorem erasePos_foldl (items : List SItem) (doc : SchemaDoc) :
+    (items.foldl SchemaDoc.add doc).erasePos = (items.map SItem.erasePos).foldl SchemaDoc.add doc.erasePos := by
+  induction items generalizing doc with
+  | nil => rfl
+  | cons it items ih => simp [List.foldl_cons, ih, erasePos_add]
+
+theorem setBuiltIn_erasePos (b : Bool) (doc : SchemaDoc) : setBuiltIn b doc.erasePos = (setBuiltIn b doc).erasePos := by
+  simp [setBuiltIn, SchemaDoc.erasePos, List.map_map, Function.comp_def, Definition.erasePos]
+
+theorem setBI_norm (b : Bool) (it : SItem) : (it.norm).setBI b = (it.erasePos).setBI b := by
+  cases it <;> simp [SItem.norm, SItem.setBI, SItem.erasePos, Definition.erasePos]
+
+/-- **parsing printed items**: if the significant tokens of `inp` are the concatenation of the
+    printed items (descriptions as tokens of kind `dk`), `ParseSchema` accepts `inp` and returns
+    the items, each in its list and in item order, up to positions (and with the source's
+    `BuiltIn` flag) -/
+theorem parseSchemaSrc_items {dk : Kind} (hdk : DescKind dk) (items : List SItem) (hok : ∀ it ∈ items, ItemOK it)
+    (src : Nat) (b : Bool) (inp : Bytes) (htok : tokensOf inp = some (items.flatMap (printItemK dk))) :
+    ∃ d', parseSchemaSrc 0 src b inp = .ok d' ∧
+      d'.erasePos = (setBuiltIn b (items.foldl SchemaDoc.add SchemaDoc.empty)).erasePos := by
+  obtain ⟨t, hteof, hst⟩ := starts_of_tokensOf htok
+  have hloop := fwd_schemaDocLoop hdk (fuelFor inp) items hok (fuelFor inp) SchemaDoc.empty
+  have hrun : Fwd (parseSchemaDocument (fuelFor inp)) (abs (PState.init src inp)) (fun d a' =>
+      d.erasePos = (items.map SItem.norm).foldl SchemaDoc.add SchemaDoc.empty.erasePos ∧ a'.σ = .eof t) := by
+    unfold parseSchemaDocument
+    refine Fwd.bind (fwd_peekPos _) ?_
+    rintro _ a1 rfl
+    exact hloop _ (.eof t) (by simpa [abs_init] using hst) hteof
+  obtain ⟨hl, _, e1, _⟩ := hrun (PState.init src inp) (WF.init src inp) (by simp [dead, PState.init]) rfl (runSchema_oof 0 src inp)
+  have hofrun : Result.ofRun (runSchema 0 src inp) = .ok (runSchema 0 src inp).1 := ofRun_ok.2 ⟨live_oof hl, live_err hl, rfl⟩
+  refine ⟨setBuiltIn b (runSchema 0 src inp).1, parseSchemaSrc_ok.2 ⟨_, hofrun, rfl⟩, ?_⟩
+  have e1' : (runSchema 0 src inp).1.erasePos = (items.map SItem.norm).foldl SchemaDoc.add SchemaDoc.empty.erasePos := e1
+  rw [← setBuiltIn_erasePos, e1', setBuiltIn_foldl, ← setBuiltIn_erasePos, erasePos_foldl, setBuiltIn_foldl]
+  simp only [List.map_map, Function.comp_def, setBI_norm]
+
+/-! ### `printSchema`: the five lists interleaved by position -/
+
+/-- the items of a document, list after list -/
+def itemsOf (d : SchemaDoc) : List SItem :=
+  d.schema.map .schema ++ d.schemaExt.map .schemaExt ++ d.directives.map .directive ++ d.definitions.map .definition ++
+    d.extensions.map .extension
+
+/-- … and in the order `printSchema` writes them -/
+def sourceOrderS (d : SchemaDoc) : List SItem :=
+  (itemsOf d).mergeSort fun a b => decide ((sItem a).1 ≤ (sItem b).1)
+
+theorem printSchema_sourceOrder (d : SchemaDoc) : printSchema d = (sourceOrderS d).flatMap fun x => (sItem x).2 := by
+  have hitems : docItems d = (itemsOf d).map sItem := by
+    simp [docItems, itemsOf, List.map_map, Function.comp_def, sItem]
+  rw [printSchema_eq, hitems]
+  unfold inSourceOrder sourceOrderS
+  rw [← List.map_mergeSort (f := sItem) (r := fun a b => decide ((sItem a).1 ≤ (sItem b).1))
+    (s := fun a b => decide (a.1 ≤ b.1)) (fun _ _ _ _ => rfl)]
+  simp [List.flatMap_def, List.map_map, Function.comp_def]
+
+def getSchema : SItem → Option SchemaDef | .schema s => some s | _ => none
+def getSchemaExt : SItem → Option SchemaDef | .schemaExt s => some s | _ => none
+def getDirective : SItem → Option DirectiveDef | .directive s => some s | _ => none
+def getDefinition : SItem → Option Definition | .definition s => some s | _ => none
+def getExtension : SItem → Option Definition | .extension s => some s | _ => none
+
+theorem filterMap_none' {α β : Type} (l : List α) : l.filterMap (fun _ => (none : Option β)) = [] := by
+  induction l <;> simp_all [List.filterMap_cons]
+
+theorem foldl_add_lists (items : List SItem) (doc : SchemaDoc) :
+    items.foldl SchemaDoc.add doc =
+      { schema := doc.schema ++ items.filterMap getSchema, schemaExt := doc.schemaExt ++ items.filterMap getSchemaExt,
+        directives := doc.directives ++ items.filterMap getDirective,
+        definitions := doc.definitions ++ items.filterMap getDefinition,
+        extensions := doc.extensions ++ items.filterMap getExtension } := by
+  induction items generalizing doc with
+  | nil => simp
+  | cons it items ih =>
+    rw [List.foldl_cons, ih]
+    cases it <;> simp [SchemaDoc.add, List.filterMap_cons, getSchema, getSchemaExt, getDirective, getDefinition, getExtension]
+
+/-- stability: a projection of the sorted items is the corresponding list when that list is sorted -/
+theorem proj_sourceOrder {α : Type} (d : SchemaDoc) (get : SItem → Option α) (mk : α → SItem) (xs : List α)
+    (hget : ∀ x, get (mk x) = some x) (hsub : (xs.map mk).Sublist (itemsOf d))
+    (hlen : ((itemsOf d).filterMap get).length = xs.length)
+    (hsorted : xs.Pairwise fun a b => (sItem (mk a)).1 ≤ (sItem (mk b)).1) :
+    (sourceOrderS d).filterMap get = xs := by
+  have trans : ∀ a b c : SItem, decide ((sItem a).1 ≤ (sItem b).1) = true → decide ((sItem b).1 ≤ (sItem c).1) = true →
+      decide ((sItem a).1 ≤ (sItem c).1) = true := by
+    intro a b c; simp only [decide_eq_true_eq]; omega
+  have total : ∀ a b : SItem, (decide ((sItem a).1 ≤ (sItem b).1) || decide ((sItem b).1 ≤ (sItem a).1)) = true := by
+    intro a b; simp only [Bool.or_eq_true, decide_eq_true_eq]; omega
+  have hperm := List.mergeSort_perm (itemsOf d) (fun a b : SItem => decide ((sItem a).1 ≤ (sItem b).1))
+  have hs : (xs.map mk).Sublist (sourceOrderS d) :=
+    List.sublist_mergeSort trans total (by
+      rw [List.pairwise_map]
+      exact hsorted.imp fun h => decide_eq_true h) hsub
+  have h1 := hs.filterMap get
+  have h2 : (xs.map mk).filterMap get = xs := by
+    rw [List.filterMap_map]
+    have : (get ∘ mk) = some := funext hget
+    rw [this]; simp
+  rw [h2] at h1
+  refine (h1.eq_of_length ?_).symm
+  rw [sourceOrderS, (hperm.filterMap get).length_eq, hlen]
+
+def PrintableSchema (d : SchemaDoc) : Prop :=
+  DocAll ItemOK d ∧
+    d.schema.Pairwise (fun a b => a.pos.start ≤ b.pos.start) ∧ d.schemaExt.Pairwise (fun a b => a.pos.start ≤ b.pos.start) ∧
+    d.directives.Pairwise (fun a b => a.pos.start ≤ b.pos.start) ∧ d.definitions.Pairwise (fun a b => a.pos.start ≤ b.pos.start) ∧
+    d.extensions.Pairwise (fun a b => a.pos.start ≤ b.pos.start)
+
+theorem sourceOrderS_foldl (d : SchemaDoc) (h1 : d.schema.Pairwise fun a b => a.pos.start ≤ b.pos.start)
+    (h2 : d.schemaExt.Pairwise fun a b => a.pos.start ≤ b.pos.start) (h3 : d.directives.Pairwise fun a b => a.pos.start ≤ b.pos.start)
+    (h4 : d.definitions.Pairwise fun a b => a.pos.start ≤ b.pos.start) (h5 : d.extensions.Pairwise fun a b => a.pos.start ≤ b.pos.start) :
+    (sourceOrderS d).foldl SchemaDoc.add SchemaDoc.empty = d := by
+  rw [foldl_add_lists]
+  have e1 : (sourceOrderS d).filterMap getSchema = d.schema :=
+    proj_sourceOrder d getSchema .schema d.schema (fun _ => rfl)
+      (by simp only [itemsOf, List.append_assoc]; exact List.sublist_append_left _ _)
+      (by simp [itemsOf, List.filterMap_append, List.filterMap_map, Function.comp_def, getSchema, filterMap_none']) h1
+  have e2 : (sourceOrderS d).filterMap getSchemaExt = d.schemaExt :=
+    proj_sourceOrder d getSchemaExt .schemaExt d.schemaExt (fun _ => rfl)
+      (by simp only [itemsOf, List.append_assoc]
+          exact (List.sublist_append_left _ _).trans (List.sublist_append_right _ _))
+      (by simp [itemsOf, List.filterMap_append, List.filterMap_map, Function.comp_def, getSchemaExt, filterMap_none']) h2
+  have e3 : (sourceOrderS d).filterMap getDirective = d.directives :=
+    proj_sourceOrder d getDirective .directive d.directives (fun _ => rfl)
+      (by simp only [itemsOf, List.append_assoc]
+          exact ((List.sublist_append_left _ _).trans (List.sublist_append_right _ _)).trans (List.sublist_append_right _ _))
+      (by simp [itemsOf, List.filterMap_append, List.filterMap_map, Function.comp_def, getDirective, filterMap_none']) h3
+  have e4 : (sourceOrderS d).filterMap getDefinition = d.definitions :=
+    proj_sourceOrder d getDefinition .definition d.definitions (fun _ => rfl)
+      (by simp only [itemsOf, List.append_assoc]
+          exact (((List.sublist_append_left _ _).trans (List.sublist_append_right _ _)).trans (List.sublist_append_right _ _)).trans
+            (List.sublist_append_right _ _))
+      (by simp [itemsOf, List.filterMap_append, List.filterMap_map, Function.comp_def, getDefinition, filterMap_none']) h4
+  have e5 : (sourceOrderS d).filterMap getExtension = d.extensions :=
+    proj_sourceOrder d getExtension .extension d.extensions (fun _ => rfl)
+      (by simp only [itemsOf]; exact List.sublist_append_right _ _)
+      (by simp [itemsOf, List.filterMap_append, List.filterMap_map, Function.comp_def, getExtension, filterMap_none']) h5
+  simp [e1, e2, e3, e4, e5, SchemaDoc.empty]
+
+theorem mem_itemsOf {d : SchemaDoc} {Q : SItem → Prop} (h : DocAll Q d) : ∀ it ∈ itemsOf d, Q it := by
+  obtain ⟨h1, h2, h3, h4, h5⟩ := h
+  intro it hit
+  simp only [itemsOf, List.mem_append, List.mem_map] at hit
+  rcases hit with (((⟨x, hx, rfl⟩ | ⟨x, hx, rfl⟩) | ⟨x, hx, rfl⟩) | ⟨x, hx, rfl⟩) | ⟨x, hx, rfl⟩
+  · exact h1 x hx
+  · exact h2 x hx
+  · exact h3 x hx
+  · exact h4 x hx
+  · exact h5 x hx
+
+/-- **parse ∘ print** for type-system documents -/
+theorem parseSchemaSrc_print (d : SchemaDoc) (hp : PrintableSchema d) (src : Nat) (b : Bool) (inp : Bytes)
+    (htok : tokensOf inp = some (printSchema d)) :
+    ∃ d', parseSchemaSrc 0 src b inp = .ok d' ∧ d'.erasePos = (setBuiltIn b d).erasePos := by
+  obtain ⟨hok, s1, s2, s3, s4, s5⟩ := hp
+  have hitems : ∀ it ∈ sourceOrderS d, ItemOK it := fun it hit =>
+    mem_itemsOf hok it ((List.mergeSort_perm _ _).mem_iff.1 hit)
+  have hflat : (sourceOrderS d).flatMap (printItemK .string) = printSchema d := by
+    rw [printSchema_sourceOrder]
+    simp only [List.flatMap_def]
+    congr 2
+    exact funext printItemK_string
+  obtain ⟨d', h1, h2⟩ := parseSchemaSrc_items (.inl rfl) (sourceOrderS d) hitems src b inp (by rw [hflat]; exact htok)
+  rw [sourceOrderS_foldl d s1 s2 s3 s4 s5] at h2
+  exact ⟨d', h1, h2⟩
 
 end Gql.Parser
